@@ -26,9 +26,13 @@
    (the decoder raises when it reaches it).  All sizes are in units: Limit is
    read_bufsize.
 
-   Everything that happens inside one data_received() call is synchronous in the code;
-   the model still takes one step per parser loop iteration (pc # "idle": no other party
-   can move) so that the invariants are evaluated after every single decoder call.
+   Everything that happens inside one data_received() call or one read call is synchronous
+   in the code; the model still takes one step per parser loop iteration and per buffer
+   chunk taken by a read (pc # "idle": no other party can move) so that the invariants are
+   evaluated after every single decoder call.  A read is a loop over the reader's buffer
+   chunks (StreamReader._read_nowait): after every chunk taken, `size < low water` calls
+   protocol.resume_reading() re-entrantly, which may refill the buffer the same read is
+   still draining (ret = "read").
 
    Design switches (TRUE = the design that satisfies the property).  The two marked
    "as coded: FALSE" are the deviations of the code as found; they are taken by the
@@ -39,30 +43,39 @@
                        NEXT feed_data before it feeds anything, with nobody left to resume)
      EofKeepsParser    connection_lost keeps the parser while it still holds pending output
                        (as coded: FALSE - ResponseHandler.connection_lost sets _parser=None)
+   ZeroUnits = TRUE admits input units that decode to nothing (headers, empty blocks).
+   MidChunkCuts = TRUE lets a network piece end inside an HTTP chunk (FALSE: pieces end at chunk
+   boundaries, which is what the replay driver renders).
    The others are mutants for sensitivity: UseBudget (max_length passed),
    ResumeReenters (resume_reading calls data_received(b"")), PauseReachesParser
    (pause_reading reaches the payload parser), KeepPending (_pending_unused_data kept),
-   CheckEachChunk (413 test inside the read loop).                                      *)
+   CheckEachChunk (413 test inside the read loop), ErrChecked (a read call raises the stored
+   payload error before it takes anything).                                      *)
 EXTENDS Naturals, Sequences, FiniteSets, TLC
 
 CONSTANTS Mode, Codec, Side, Limit, Big, MaxPieces, MaxUnits, ReadSizes, ClientMax,
-          WithMembers, WithCorrupt, WithTrunc,
+          WithMembers, WithCorrupt, WithTrunc, MidChunkCuts, ZeroUnits,
           ClearStalePause, EofKeepsParser,
-          UseBudget, ResumeReenters, PauseReachesParser, KeepPending, CheckEachChunk
+          UseBudget, ResumeReenters, PauseReachesParser, KeepPending, CheckEachChunk, ErrChecked
 
 VARIABLES netLeft, finSent, inbox, tPaused, netEof,          \* network / transport
           rPaused, connected,                                 \* protocol
           pst, pPaused, more, tail, eofPending, hasMore, finSeen,   \* parser
           pendIn, pendOut, lastOut,                           \* decoder
-          size, low, high, reof, rexc,                        \* reader
-          cst, acc,                                           \* consumer
+          buf, low, high, reof, rexc,                         \* reader (buf: sizes of the buffered chunks)
+          cst, acc, want, cnt,                                \* consumer
           owed, afterErr,                                     \* bookkeeping (history)
           pc, ret, arg
 
 vars == <<netLeft, finSent, inbox, tPaused, netEof, rPaused, connected,
           pst, pPaused, more, tail, eofPending, hasMore, finSeen,
-          pendIn, pendOut, lastOut, size, low, high, reof, rexc, cst, acc,
+          pendIn, pendOut, lastOut, buf, low, high, reof, rexc, cst, acc, want, cnt,
           owed, afterErr, pc, ret, arg>>
+
+netv == <<netLeft, finSent, inbox, netEof>>
+parv == <<pst, pPaused, more, tail, eofPending, hasMore, finSeen>>
+decv == <<pendIn, pendOut, lastOut>>
+conv == <<cst, acc, want, cnt>>
 
 INF == 1000            \* "no limit": read() / read(-1) set the water marks to sys.maxsize
 M == 100               \* member end
@@ -75,8 +88,12 @@ Max(a, b) == IF a > b THEN a ELSE b
 E(u) == IF u < 100 THEN u ELSE 0
 RECURSIVE SumE(_)
 SumE(s) == IF s = <<>> THEN 0 ELSE E(Head(s)) + SumE(Tail(s))
+RECURSIVE Sum(_)
+Sum(s) == IF s = <<>> THEN 0 ELSE Head(s) + Sum(Tail(s))
+size == Sum(buf)                                   \* StreamReader._size
 
-Units == {0, 1, Big} \cup (IF WithMembers THEN {M} ELSE {}) \cup (IF WithCorrupt THEN {X} ELSE {})
+\* (an identity body has no input that decodes to nothing, no members and no decoder to fail)
+Units == (IF Codec = "identity" \/ ~ZeroUnits THEN {1, Big} ELSE {0, 1, Big}) \cup (IF WithMembers THEN {M} ELSE {}) \cup (IF WithCorrupt THEN {X} ELSE {})
 UnitSeqs == UNION {[1..k -> Units] : k \in 1..MaxUnits}
 NoPiece == [u |-> <<>>, fin |-> FALSE]
 
@@ -89,8 +106,8 @@ Init ==
     /\ pst = "open" /\ pPaused = FALSE /\ more = FALSE /\ tail = <<>> /\ eofPending = FALSE
     /\ hasMore = FALSE /\ finSeen = FALSE
     /\ pendIn = <<>> /\ pendOut = 0 /\ lastOut = 0
-    /\ size = 0 /\ low = Limit /\ high = 2 * Limit /\ reof = FALSE /\ rexc = FALSE
-    /\ cst = "run" /\ acc = 0
+    /\ buf = <<>> /\ low = Limit /\ high = 2 * Limit /\ reof = FALSE /\ rexc = FALSE
+    /\ cst = "run" /\ acc = 0 /\ want = 0 /\ cnt = 0
     /\ owed = 0 /\ afterErr = FALSE
     /\ pc = "idle" /\ ret = "net" /\ arg = NoPiece
 
@@ -108,6 +125,8 @@ Dec(pin, pout, room, out) ==
          ELSE LET k == Min(pout, room) IN Dec(pin, pout - k, room - k, out + k)
     ELSE IF pin = <<>> THEN [pin |-> pin, pout |-> 0, out |-> out, err |-> FALSE]
     ELSE IF Head(pin) = X THEN [pin |-> <<>>, pout |-> 0, out |-> out, err |-> TRUE]
+    ELSE IF room = 0 /\ E(Head(pin)) = 0 /\ (Head(pin) # M \/ Tail(pin) = <<>>)
+         THEN Dec(Tail(pin), 0, 0, out)      \* input that decodes to nothing is absorbed by the decoder
     ELSE IF room = 0
          THEN \* _decompress_members: budget <= 0 -> _pending_unused_data = rest; break
               [pin |-> IF Head(pin) = M /\ ~KeepPending THEN <<>> ELSE pin,
@@ -121,16 +140,16 @@ Avail(r) ==
       [] OTHER -> r.pin # <<>> \/ r.pout > 0 \/ r.out > 0              \* zlib / brotli: "not _last_empty"
 
 \* DeflateBuffer.feed_data(input) -> StreamReader.feed_data(out) -> (size > high) pause_reading
-\* sets: pendIn pendOut lastOut more size rPaused pPaused tPaused pst rexc
+\* sets: pendIn pendOut lastOut more buf rPaused pPaused tPaused pst rexc
 DoCall(input) ==
     LET r == Dec(pendIn \o input, pendOut, Budget, 0) IN
     IF r.err
     THEN \* ContentEncodingError: HttpParser.feed_data sets the payload exception, drops the parser
          /\ pendIn' = <<>> /\ pendOut' = 0 /\ lastOut' = 0 /\ more' = FALSE
          /\ rexc' = TRUE /\ pst' = "error"
-         /\ UNCHANGED <<size, rPaused, pPaused, tPaused>>
+         /\ UNCHANGED <<buf, rPaused, pPaused, tPaused>>
     ELSE /\ pendIn' = r.pin /\ pendOut' = r.pout /\ lastOut' = r.out /\ more' = Avail(r)
-         /\ size' = size + r.out
+         /\ buf' = IF r.out > 0 THEN Append(buf, r.out) ELSE buf
          /\ UNCHANGED <<rexc, pst>>
          /\ IF r.out > 0 /\ size + r.out > high
             THEN \* BaseProtocol.pause_reading
@@ -149,9 +168,8 @@ NetSend(us, fin) ==
     /\ finSent' = fin
     /\ inbox' = Append(inbox, [u |-> us, fin |-> fin])
     /\ owed' = owed + SumE(us)
-    /\ UNCHANGED <<tPaused, netEof, rPaused, connected, pst, pPaused, more, tail, eofPending, hasMore,
-                   finSeen, pendIn, pendOut, lastOut, size, low, high, reof, rexc, cst, acc, afterErr,
-                   pc, ret, arg>>
+    /\ UNCHANGED <<tPaused, netEof, rPaused, connected, parv, decv, buf, low, high, reof, rexc, conv,
+                   afterErr, pc, ret, arg>>
 
 \* the peer closes: end of an until-EOF body, or a truncation (WithTrunc)
 NetClose ==
@@ -160,17 +178,16 @@ NetClose ==
        \/ finSent
        \/ WithTrunc
     /\ netEof' = "queued"
-    /\ UNCHANGED <<netLeft, finSent, inbox, tPaused, rPaused, connected, pst, pPaused, more, tail, eofPending,
-                   hasMore, finSeen, pendIn, pendOut, lastOut, size, low, high, reof, rexc, cst, acc, owed,
-                   afterErr, pc, ret, arg>>
+    /\ UNCHANGED <<netLeft, finSent, inbox, tPaused, rPaused, connected, parv, decv, buf, low, high, reof,
+                   rexc, conv, owed, afterErr, pc, ret, arg>>
 
 \* transport -> protocol.data_received(piece): only while reading is not paused
 NetDeliver ==
     /\ pc = "idle" /\ connected /\ ~tPaused /\ inbox # <<>>
     /\ inbox' = Tail(inbox)
     /\ arg' = Head(inbox) /\ ret' = "net" /\ pc' = "entry"
-    /\ UNCHANGED <<netLeft, finSent, tPaused, netEof, rPaused, connected, pst, pPaused, more, tail, eofPending,
-                   hasMore, finSeen, pendIn, pendOut, lastOut, size, low, high, reof, rexc, cst, acc, owed, afterErr>>
+    /\ UNCHANGED <<netLeft, finSent, tPaused, netEof, rPaused, connected, parv, decv, buf, low, high, reof,
+                   rexc, conv, owed, afterErr>>
 
 \* EOF reaches the protocol after all queued data: connection_lost -> parser.feed_eof()
 NetEofDeliver ==
@@ -187,14 +204,18 @@ NetEofDeliver ==
             /\ pst' = "error" /\ rexc' = TRUE
             /\ UNCHANGED <<eofPending, pc, ret, arg>>
     /\ UNCHANGED <<netLeft, finSent, inbox, tPaused, rPaused, pPaused, more, tail, hasMore, finSeen,
-                   pendIn, pendOut, lastOut, size, low, high, reof, cst, acc, owed, afterErr>>
+                   decv, buf, low, high, reof, conv, owed, afterErr>>
 
 (* ------------------------------------------------------------------- parser *)
+\* where a synchronous parser call returns to
+Back == IF ret = "read" THEN "read" ELSE "idle"
+FromResume == ret \in {"resume", "read"}
+
 \* how a feed_data call ends; `k` in {"needs", "pending", "complete"}
 \*   pending  : PAYLOAD_HAS_PENDING_INPUT (parser holds input back, waits for resume)
 \*   complete : payload.feed_eof() -> StreamReader.feed_eof -> resume_reading(resume_parser=False)
 Exit(k, clearPause, drop) ==
-    /\ pc' = "idle" /\ arg' = NoPiece
+    /\ pc' = Back /\ arg' = NoPiece
     /\ hasMore' = (k = "pending")
     /\ pPaused' = IF clearPause THEN FALSE ELSE pPaused
     /\ LET rp == IF k = "complete" THEN FALSE ELSE rPaused IN
@@ -205,33 +226,30 @@ Exit(k, clearPause, drop) ==
                  ELSE pst
        /\ tPaused' = IF ~connected THEN tPaused
                      ELSE IF k = "complete" THEN FALSE
-                     ELSE IF ret = "resume" /\ ~rp THEN FALSE      \* BaseProtocol.resume_reading tail
+                     ELSE IF FromResume /\ ~rp THEN FALSE      \* BaseProtocol.resume_reading tail
                      ELSE tPaused
-    /\ UNCHANGED <<netLeft, finSent, inbox, netEof, connected, more, tail, eofPending, finSeen,
-                   pendIn, pendOut, lastOut, size, low, high, rexc, cst, acc, owed, afterErr, ret>>
+    /\ UNCHANGED <<netv, connected, more, tail, eofPending, finSeen, decv, buf, low, high, rexc, conv,
+                   owed, afterErr, ret>>
 
 \* HttpParser.feed_data entry: `while start_pos < data_len or self._payload_has_more_data`
 Entry ==
     /\ pc = "entry"
     /\ IF pst # "open" \/ (arg.u = <<>> /\ ~arg.fin /\ ~hasMore)
        THEN \* nothing to do (no parser any more / no data and nothing held back)
-            /\ pc' = "idle" /\ arg' = NoPiece
-            /\ tPaused' = IF connected /\ ret = "resume" /\ ~rPaused THEN FALSE ELSE tPaused
-            /\ UNCHANGED <<pst, pPaused, more, tail, hasMore, finSeen, pendIn, pendOut, lastOut, size,
-                           rPaused, rexc>>
+            /\ pc' = Back /\ arg' = NoPiece
+            /\ tPaused' = IF connected /\ FromResume /\ ~rPaused THEN FALSE ELSE tPaused
+            /\ UNCHANGED <<pst, pPaused, more, tail, hasMore, finSeen, decv, buf, rPaused, rexc>>
        ELSE IF Mode = "Chunked"
        THEN /\ tail' = tail \o arg.u \o (IF arg.fin THEN <<FIN>> ELSE <<>>)
             /\ pc' = "loop" /\ arg' = NoPiece
-            /\ UNCHANGED <<pst, pPaused, more, hasMore, finSeen, pendIn, pendOut, lastOut, size, rPaused,
-                           tPaused, rexc>>
+            /\ UNCHANGED <<pst, pPaused, more, hasMore, finSeen, decv, buf, rPaused, tPaused, rexc>>
        ELSE \* PARSE_LENGTH / PARSE_UNTIL_EOF: the first payload.feed_data(chunk) is unconditional
             /\ finSeen' = (finSeen \/ arg.fin)
             /\ DoCall(arg.u)
-            /\ pc' = IF pst' = "error" THEN "idle" ELSE "loop"
+            /\ pc' = IF pst' = "error" THEN Back ELSE "loop"
             /\ arg' = NoPiece
             /\ UNCHANGED <<tail, hasMore>>
-    /\ UNCHANGED <<netLeft, finSent, inbox, netEof, connected, eofPending, low, high, reof, cst, acc,
-                   owed, afterErr, ret>>
+    /\ UNCHANGED <<netv, connected, eofPending, low, high, reof, conv, owed, afterErr, ret>>
 
 \* a further decoder call inside the loop
 LoopCall ==
@@ -241,13 +259,13 @@ LoopCall ==
             \/ /\ ~more /\ tail # <<>> /\ Head(tail) # FIN
                /\ DoCall(<<Head(tail)>>) /\ tail' = Tail(tail)
        ELSE more /\ DoCall(<<>>) /\ UNCHANGED tail
-    /\ pc' = IF pst' = "error" THEN "idle" ELSE "loop"
-    /\ UNCHANGED <<netLeft, finSent, inbox, netEof, connected, eofPending, hasMore, finSeen, low, high,
-                   reof, cst, acc, owed, afterErr, ret, arg>>
+    /\ pc' = IF pst' = "error" THEN Back ELSE "loop"
+    /\ UNCHANGED <<netv, connected, eofPending, hasMore, finSeen, low, high, reof, conv, owed, afterErr,
+                   ret, arg>>
 
-\* `if self._paused: self._paused = False; ...; return PAYLOAD_HAS_PENDING_INPUT`
 HoldsBack == more \/ (Mode = "Chunked" /\ tail # <<>> /\ Head(tail) # FIN)
 
+\* `if self._paused: self._paused = False; ...; return PAYLOAD_HAS_PENDING_INPUT`
 LoopPending ==
     /\ pc = "loop" /\ pPaused /\ HoldsBack
     /\ ret # "eof" \/ EofKeepsParser
@@ -278,79 +296,92 @@ NothingLeft ==
 \* return PAYLOAD_NEEDS_INPUT; a pause request that found nothing to hold back is forgotten
 LoopNeedsInput ==
     /\ NothingLeft
+    /\ ClearStalePause \/ ~pPaused
     /\ Exit("needs", TRUE, FALSE)
 
 \* as coded: the bottom `return PAYLOAD_NEEDS_INPUT` leaves HttpPayloadParser._paused set
+\* (chunked: only when the piece ends exactly at a chunk boundary; mid-chunk it is cleared)
 Dev_StalePauseKept ==
     /\ ~ClearStalePause
     /\ NothingLeft /\ pPaused
-    /\ Exit("needs", FALSE, FALSE)
+    /\ \/ Exit("needs", FALSE, FALSE)
+       \/ Mode = "Chunked" /\ MidChunkCuts /\ Exit("needs", TRUE, FALSE)
 
 (* ----------------------------------------------------------------- consumer *)
-\* StreamReader.read(n) / read() / readany() by the application (client side)
+\* the application calls StreamReader.read(n) / readany() (n = INF: one iteration of read(), i.e.
+\* set_read_chunk_size(sys.maxsize) + readany());  server: BaseRequest.read() =
+\* set_read_chunk_size(client_max_size); loop { chunk = readany(); body += chunk;
+\* if len(body) > client_max_size: raise 413; if not chunk: break }
+ReadSet == IF Side = "server" THEN {INF} ELSE ReadSizes
 ConsumerRead(n) ==
-    /\ pc = "idle" /\ cst = "run" /\ Side = "client"
-    /\ rexc \/ size > 0 \/ reof                          \* otherwise it awaits the waiter
-    /\ IF rexc
-       THEN /\ cst' = "failed"
-            /\ UNCHANGED <<size, low, high, rPaused, owed, pc, ret, arg, afterErr>>
-       ELSE IF size = 0
-       THEN /\ cst' = "done"
-            /\ UNCHANGED <<size, low, high, rPaused, owed, pc, ret, arg, afterErr>>
-       ELSE LET lo == IF n >= INF THEN INF ELSE Max(low, n)      \* set_read_chunk_size
-                k == Min(n, size) IN
-            /\ low' = lo /\ high' = IF n >= INF THEN INF ELSE IF n > low THEN 2 * n ELSE high
-            /\ size' = size - k /\ owed' = owed - k
-            /\ afterErr' = (afterErr \/ rexc)
+    /\ pc = "idle" /\ cst = "run"
+    /\ rexc \/ buf # <<>> \/ reof \/ ~connected            \* otherwise it awaits the waiter
+    /\ afterErr' = (afterErr \/ (rexc /\ buf # <<>> /\ ~ErrChecked))
+    /\ IF rexc /\ (ErrChecked \/ buf = <<>>)
+       THEN \* `if self._exception is not None: raise self._exception` before anything is taken
+            /\ cst' = "failed"
+            /\ UNCHANGED <<low, high, want, cnt, pc>>
+       ELSE IF buf = <<>>
+       THEN \* StreamReader._wait: `if not self._protocol.connected: raise RuntimeError("Connection closed.")`
+            /\ cst' = IF ~reof THEN "closed"
+                      ELSE IF Side = "server" /\ acc > ClientMax THEN "413" ELSE "done"
+            /\ UNCHANGED <<low, high, want, cnt, pc>>
+       ELSE LET m == IF Side = "server" THEN ClientMax ELSE n IN        \* set_read_chunk_size(m)
+            /\ low' = IF m >= INF THEN INF ELSE Max(low, m)
+            /\ high' = IF m >= INF THEN INF ELSE IF m > low THEN 2 * m ELSE high
+            /\ want' = n
+            /\ cnt' = IF n >= INF THEN Len(buf) ELSE 0       \* readany drains only the chunks present now
+            /\ pc' = "read"
             /\ cst' = cst
-            /\ IF size - k < lo
-               THEN \* _read_nowait_chunk: protocol.resume_reading() -> data_received(b"")
-                    /\ rPaused' = FALSE
-                    /\ pc' = IF ResumeReenters THEN "entry" ELSE "resumetail"
-                    /\ ret' = "resume" /\ arg' = NoPiece
-               ELSE UNCHANGED <<rPaused, pc, ret, arg>>
-    /\ UNCHANGED <<netLeft, finSent, inbox, tPaused, netEof, connected, pst, pPaused, more, tail, eofPending,
-                   hasMore, finSeen, pendIn, pendOut, lastOut, reof, rexc, acc>>
+    /\ UNCHANGED <<netv, tPaused, rPaused, connected, parv, decv, buf, reof, rexc, acc, owed, ret, arg>>
+
+\* StreamReader._read_nowait_chunk: take (part of) the first buffered chunk; `size < low` resumes
+ReadChunk ==
+    /\ pc = "read" /\ buf # <<>> /\ want > 0 /\ (want >= INF => cnt > 0)
+    /\ LET k == IF want >= INF THEN Head(buf) ELSE Min(want, Head(buf))
+           nb == IF k = Head(buf) THEN Tail(buf) ELSE [buf EXCEPT ![1] = @ - k] IN
+       /\ buf' = nb
+       /\ want' = IF want >= INF THEN want ELSE want - k
+       /\ cnt' = IF want >= INF THEN cnt - 1 ELSE cnt
+       /\ owed' = owed - k
+       /\ acc' = IF Side = "server" THEN acc + k ELSE acc
+       /\ IF Sum(nb) < low
+          THEN \* protocol.resume_reading() -> data_received(b"")
+               /\ rPaused' = FALSE
+               /\ pc' = IF ResumeReenters THEN "entry" ELSE "resumetail"
+               /\ ret' = "read" /\ arg' = NoPiece
+          ELSE UNCHANGED <<rPaused, pc, ret, arg>>
+    /\ UNCHANGED <<netv, tPaused, connected, parv, decv, low, high, reof, rexc, cst, afterErr>>
+
+\* the read call returns
+ReadDone ==
+    /\ pc = "read" /\ (buf = <<>> \/ want = 0 \/ (want >= INF /\ cnt = 0))
+    /\ pc' = "idle" /\ want' = 0 /\ cnt' = 0
+    /\ cst' = IF Side = "server" /\ CheckEachChunk /\ acc > ClientMax THEN "413" ELSE cst
+    /\ UNCHANGED <<netv, tPaused, rPaused, connected, parv, decv, buf, low, high, reof, rexc, acc, owed,
+                   afterErr, ret, arg>>
 
 \* mutant only (ResumeReenters = FALSE): resume_reading without the data_received(b"") call
 ResumeTail ==
     /\ pc = "resumetail"
-    /\ pc' = "idle"
+    /\ pc' = Back
     /\ tPaused' = IF connected /\ ~rPaused THEN FALSE ELSE tPaused
-    /\ UNCHANGED <<netLeft, finSent, inbox, netEof, rPaused, connected, pst, pPaused, more, tail, eofPending,
-                   hasMore, finSeen, pendIn, pendOut, lastOut, size, low, high, reof, rexc, cst, acc, owed,
-                   afterErr, ret, arg>>
+    /\ UNCHANGED <<netv, rPaused, connected, parv, decv, buf, low, high, reof, rexc, conv, owed, afterErr, ret, arg>>
 
-\* BaseRequest.read(): set_read_chunk_size(client_max_size); loop { chunk = readany(); body += chunk;
-\* if len(body) > client_max_size: raise 413; if not chunk: break }
-ServerRead ==
-    /\ pc = "idle" /\ cst = "run" /\ Side = "server"
-    /\ rexc \/ size > 0 \/ reof
-    /\ IF rexc
-       THEN /\ cst' = "failed" /\ UNCHANGED <<size, low, high, rPaused, owed, pc, ret, arg, acc>>
-       ELSE IF size = 0
-       THEN /\ cst' = IF acc > ClientMax THEN "413" ELSE "done"
-            /\ UNCHANGED <<size, low, high, rPaused, owed, pc, ret, arg, acc>>
-       ELSE LET lo == Max(low, ClientMax) IN
-            /\ low' = lo /\ high' = IF ClientMax > low THEN 2 * ClientMax ELSE high
-            /\ size' = 0 /\ owed' = owed - size /\ acc' = acc + size
-            /\ cst' = IF CheckEachChunk /\ acc + size > ClientMax THEN "413" ELSE "run"
-            /\ rPaused' = FALSE
-            /\ pc' = "entry" /\ ret' = "resume" /\ arg' = NoPiece
-    /\ UNCHANGED <<netLeft, finSent, inbox, tPaused, netEof, connected, pst, pPaused, more, tail, eofPending,
-                   hasMore, finSeen, pendIn, pendOut, lastOut, reof, rexc, afterErr>>
-
-Terminal == cst \in {"done", "failed", "413"}
+Terminal == cst \in {"done", "failed", "413", "closed"}
 
 \* the exchange is over; keeps TLC's deadlock check meaningful (a state without successor is a hang)
 Finished == pc = "idle" /\ Terminal /\ UNCHANGED vars
 
+ParserStep == Entry \/ LoopCall \/ LoopPending \/ LoopComplete \/ LoopNeedsInput \/ Dev_StalePauseKept
+              \/ Dev_EofDropsParser \/ ResumeTail
+ReaderStep == ReadChunk \/ ReadDone
+
 Next ==
     \/ \E us \in UnitSeqs, fin \in BOOLEAN : NetSend(us, fin)
     \/ NetClose \/ NetDeliver \/ NetEofDeliver
-    \/ Entry \/ LoopCall \/ LoopPending \/ LoopComplete \/ LoopNeedsInput \/ Dev_StalePauseKept \/ Dev_EofDropsParser
-    \/ \E n \in ReadSizes : ConsumerRead(n)
-    \/ ResumeTail \/ ServerRead
+    \/ ParserStep \/ ReaderStep
+    \/ \E n \in ReadSet : ConsumerRead(n)
     \/ Finished
 
 Spec == Init /\ [][Next]_vars
@@ -360,8 +391,8 @@ FairSpec ==
     /\ Spec
     /\ WF_vars(\E us \in UnitSeqs : NetSend(us, TRUE) \/ (Mode = "UntilEOF" /\ NetSend(us, FALSE)))
     /\ WF_vars(NetClose) /\ WF_vars(NetDeliver) /\ WF_vars(NetEofDeliver)
-    /\ WF_vars(Entry \/ LoopCall \/ LoopPending \/ LoopComplete \/ LoopNeedsInput \/ Dev_StalePauseKept \/ Dev_EofDropsParser \/ ResumeTail)
-    /\ WF_vars(\E n \in ReadSizes : ConsumerRead(n)) /\ WF_vars(ServerRead)
+    /\ WF_vars(ParserStep) /\ WF_vars(ReaderStep)
+    /\ WF_vars(\E n \in ReadSet : ConsumerRead(n))
 
 (* --------------------------------------------------------------- properties *)
 Clean == ~WithCorrupt /\ ~WithTrunc
@@ -382,19 +413,24 @@ NoInputLost ==
     (~rexc /\ pst # "error") =>
         owed = size + pendOut + SumE(pendIn) + SumE(tail) + Latent(inbox) + SumE(arg.u)
 
-\* after a decoding error the reader carries the error and nothing more reaches the application
+\* after a decoding error the reader carries the error, and no read call that starts afterwards
+\* returns data (the call that was draining the buffer when the error was discovered re-entrantly
+\* still returns the chunks decoded before it)
 ErrorNotData ==
     /\ pst = "error" => rexc
     /\ ~afterErr
-ErrStopsFeed == [][rexc => size' <= size]_vars
+ErrStopsFeed == [][rexc => Sum(buf') <= Sum(buf)]_vars
 
 \* the consumer waits on an empty reader, not at EOF, and no other party can move
 NetCanMove ==
     \/ netLeft > 0 /\ ~finSent /\ netEof = "no"
     \/ netEof = "no" /\ (Mode = "UntilEOF" \/ finSent \/ WithTrunc)
     \/ connected /\ ~tPaused /\ (inbox # <<>> \/ netEof = "queued")
-Stuck == pc = "idle" /\ cst = "run" /\ size = 0 /\ ~reof /\ ~rexc /\ ~NetCanMove
+Stuck == pc = "idle" /\ cst = "run" /\ buf = <<>> /\ ~reof /\ ~rexc /\ connected /\ ~NetCanMove
 NoDeadlock == ~Stuck
+
+\* a well-formed body that the peer sent completely is never answered with an error
+NoSpuriousFailure == Clean => cst \notin {"failed", "closed"}
 
 \* whenever the parser holds input back, the transport is paused - so neither new data nor EOF can
 \* overtake the held-back input (this is what makes the deferred EOF of feed_eof unreachable)
@@ -406,5 +442,5 @@ NeverReturnsMore == (Side = "server" /\ cst = "done") => acc <= ClientMax
 
 \* reading always progresses to the end of the body (or to the reported error)
 Progress == <>(Terminal)
-ReachesEof == Clean /\ Side = "client" => <>(reof /\ size = 0 /\ cst = "done")
+ReachesEof == (Clean /\ Side = "client") => <>(reof /\ buf = <<>> /\ cst = "done")
 =============================================================================
